@@ -9,14 +9,17 @@ from contracts import c_index, c_step, c_blocks
 
 # label prefix -> properties that claim it
 OWNERS = [
+    ("digital_rf_write_rf_data_index.rebase_unbounded", ("C06", "C01")),
+    ("bounds.digital_rf_write_rf_data_index.rebase_unbounded", ("C06", "C01")),
+    ("nowrap.digital_rf_write_rf_data_index.rebase_unbounded", ("C06", "C01")),
     ("digital_rf_create_rf_data_index.T_unbounded", ("C04", "C06", "C19", "C01")),
     ("L-wf-transitive", ("C04", "C06", "C19", "C01", "C05")),
     ("L-fstart-unique", ("C04", "C06", "C19", "C01", "C07")),
     ("digital_rf_create_rf_data_index.reject_unbounded", ("C05",)),
     ("digital_rf_create_rf_data_index.reject", ("C05",)),
     ("digital_rf_create_rf_data_index.accepts_wellformed", ("C05", "C01")),
-    ("digital_rf_create_rf_data_index.within_window", ("C04", "C06")),
-    ("digital_rf_create_rf_data_index.samples_to_write", ("C01", "C04", "C06", "C19")),
+    ("digital_rf_create_rf_data_index.within_window", ("C06",)),
+    ("digital_rf_create_rf_data_index.samples_to_write", ("C01", "C06", "C19")),
     ("digital_rf_create_rf_data_index.row", ("C06", "C01", "C19")),
     ("digital_rf_create_rf_data_index.null_only_if_no_rows", ("C06",)),
     ("digital_rf_create_rf_data_index.frame_writer", ("C05", "C06")),
@@ -107,6 +110,7 @@ def add_step_obligations(ck, tu, X, want, units=("index", "step", "blocks")):
         take(it.obls)
         it = cfront.CInterp(tu, externals=X, config={"prune_full": False})
         c_index.verify_index_T_unbounded(it)
+        c_index.verify_write_index_rebase_unbounded(it)
         take(it.obls)
         # the transitive form of WF used by the invariants follows from the adjacent form (C05's list) by induction on the
         # index distance: base and step are discharged here, the induction principle itself is the only meta-level step
@@ -129,8 +133,7 @@ def add_step_obligations(ck, tu, X, want, units=("index", "step", "blocks")):
         ck.extra.setdefault("bounded_functions", []).append(
             "digital_rf_create_rf_data_index / digital_rf_get_global_sample: loops unrolled for index_len <= %d with every value symbolic "
             "(bounded stand-in; callers are verified against the contract for all index_len). Proved for EVERY index_len by loop invariants: "
-            "samples_to_write (T_unbounded), reject-iff-malformed (reject_unbounded), get_global_sample (unbounded); still bounded: exact rows / row_count "
-            "of the second pass and write_rf_data_index's rebasing loop" % LM)
+            "samples_to_write (T_unbounded), reject-iff-malformed (reject_unbounded), get_global_sample (unbounded); write_rf_data_index's offset rebasing (rebase_unbounded); still bounded: exact rows / row_count of the second pass" % LM)
     if "step" in units:
         import z3 as _z
         from spec.timespec import ceil_is as _ceil_is
